@@ -2801,9 +2801,10 @@ BD_Shape<T>::simplify_using_context_assign(const BD_Shape& y) {
       }
     }
   }
-  // This point should be unreachable.
-  PPL_UNREACHABLE;
-  return false;
+  // This point is only reached when the bounds are inexact (rounding
+  // in the closure of `yy' made it miss `target'): keeping all of the
+  // constraints of `x' is a correct, if useless, simplification.
+  return bool_result;
 }
 
 template <typename T>
